@@ -1,0 +1,6 @@
+//go:build verif
+
+package bluge
+
+// VerifMergeMax reports the merge fan-in of the underlying offline writer (verification harness only).
+func (w *OfflineWriter) VerifMergeMax() int { return w.writer.VerifMergeMax() }
